@@ -56,7 +56,7 @@ def compose(ty, opname, n=3, src="slice"):
     body += "    kani::cover!(exp(0, 0) == 1);\n"
     name = cfg_name("c05_compose", ty, opname, src, f"n{n}")
     return H(name, body, {"terminal": "count", "type": ty, "then": opname, "src": src, "n": n, "threads": 1, "schedule": "sequential mode",
-                          "pipeline": p.descr()}, unwind=n + 3, weight=4)
+                          "pipeline": p.descr()}, unwind=(2 * n + 3 if ty in ("FL", "FLF") else n + 3), weight=4)
 
 
 def harnesses(tier, seed):
